@@ -17,6 +17,10 @@ def main():
     tier = sys.argv[2] if len(sys.argv) > 2 else os.environ.get('VERIF_TIER', 'quick')
     seed = int(os.environ.get('VERIF_SEED', '0') or 0)
     ctx = lib.Ctx(prop, tier, seed)
+    if tier == 'thorough':
+        from harness import oracles
+        oracles.monitor_install()          # the real LAPACK answers are tested against the theorems' oracle hypotheses
+        ctx.monitor = oracles.MONITOR
     try:
         rc = mod.run(ctx)
     except SystemExit:
